@@ -439,6 +439,21 @@ func skeletons(g *gen) (string, map[string][]string) {
 	}
 	emitList("dialChecks", "DialContext: reply rejection disjuncts, then forbidden caller header disjuncts", replyCond)
 
+	// field access table (C11 lock discipline)
+	fa := g.fieldAccess([]string{"writeErr", "writeBuf", "writer", "isWriting", "writeDeadline", "enableWriteCompression", "compressionLevel",
+		"reader", "readErr", "readRemaining", "readFinal", "readLength", "readLimit", "readMaskPos", "readMaskKey", "readErrCount", "messageReader", "readDecompress",
+		"handlePong", "handlePing", "handleClose", "mu", "writeErrMu", "frames", "once"})
+	sb.WriteString("/-- every syntactic access to a mutable Conn / PreparedMessage field: (field, r|w, function) -/\ndef fieldAccess : List (String × String × String) := [\n")
+	for i, a := range fa {
+		f := strings.Fields(a)
+		comma := ","
+		if i == len(fa)-1 {
+			comma = ""
+		}
+		fmt.Fprintf(&sb, "  (%s, %s, %s)%s\n", leanStr(f[0]), leanStr(f[1]), leanStr(f[2]), comma)
+	}
+	sb.WriteString("]\n\n")
+
 	sb.WriteString("end WS.Gen\n")
 
 	// inventories (G5)
